@@ -45,7 +45,8 @@ pub fn check_history(h: &Hist, twin: bool) -> Result<(bool, Vec<&'static str>, V
             continue;
         }
         let reqs = seg_requests(h, seg);
-        let session = reqs.iter().find(|(_, v, _, _)| v.kind == ReqKind::UpdateCheck).and_then(|(_, v, _, _)| v.session.clone());
+        // the session of the update check = the session of the attempt that was answered (the last one)
+        let session = reqs.iter().rev().find(|(_, v, _, _)| v.kind == ReqKind::UpdateCheck).and_then(|(_, v, _, _)| v.session.clone());
         let mut actual = reqs.iter().filter(|(_, v, _, _)| v.kind != ReqKind::UpdateCheck).peekable();
         let mut expected_lost: Vec<(&'static str, Vec<EventExpect>, bool)> = vec![];
         let mut empty_lost: Vec<&'static str> = vec![];
